@@ -31,7 +31,7 @@ def InvS (opn : Nat → Bool) : Sched → Prop
 /-- Every call is a step of the specification and keeps the invariant. -/
 theorem step_refines {s : Sched} {opn : Nat → Bool} {op : Op} (e : Env)
     (hi : InvS opn s) (hwf : AbsWF (absS s) opn) (hok : OpOK opn op) :
-    StepSpec e (absS s) op (s.step e op).2.2 (s.step e op).1 (absS (s.step e op).2.1) ∧
+    StepSpec True e (absS s) op (s.step e op).2.2 (s.step e op).1 (absS (s.step e op).2.1) ∧
       InvS (opnOp opn op) (s.step e op).2.1 := by
   cases s with
   | rr s =>
@@ -49,7 +49,7 @@ history is a run of the specification; the ledger stays balanced; no `Pop` yield
 no call panics. -/
 theorem run_refines (ops : List Op) : ∀ (s : Sched) (opn : Nat → Bool) (e : Env) (L : Ledger),
     InvS opn s → AbsWF (absS s) opn → LedgerOK (absS s) L → Contract opn ops →
-    ∃ L', SpecRun e (absS s) L ops (s.run e ops).2.2 (s.run e ops).1 (absS (s.run e ops).2.1) L' ∧
+    ∃ L', SpecRun True e (absS s) L ops (s.run e ops).2.2 (s.run e ops).1 (absS (s.run e ops).2.1) L' ∧
       LedgerOK (absS (s.run e ops).2.1) L' ∧
       (∀ r ∈ (s.run e ops).2.2, r ≠ .frame .empty ∧ r ≠ .panic) := by
   induction ops with
@@ -91,13 +91,13 @@ specification from the empty state (so: control first, per-stream FIFO order, DA
 `Consume`, "nothing" only when nothing is sendable), every pushed token is accounted for
 (written ++ dropped-by-CloseStream ++ still queued, in push order), no `Pop` returns the zero
 request, and no call panics. -/
-def Holds (e : Env) (ops : List Op) (rs : List Res) (e' : Env) (a' : Abs) : Prop :=
-  ∃ L', SpecRun e Abs.empty Ledger.empty ops rs e' a' L' ∧ LedgerOK a' L' ∧
+def Holds (strict : Prop) (e : Env) (ops : List Op) (rs : List Res) (e' : Env) (a' : Abs) : Prop :=
+  ∃ L', SpecRun strict e Abs.empty Ledger.empty ops rs e' a' L' ∧ LedgerOK a' L' ∧
     (∀ r ∈ rs, r ≠ .frame .empty ∧ r ≠ .panic)
 
 /-- **C12 for the round-robin, RFC 9218 and random schedulers**, all histories, all windows. -/
 theorem holds_rr_p9218_rand (k : Kind) (e : Env) (ops : List Op) (hc : Contract (fun _ => false) ops) :
-    Holds e ops (k.init.run e ops).2.2 (k.init.run e ops).1 (absS (k.init.run e ops).2.1) := by
+    Holds True e ops (k.init.run e ops).2.2 (k.init.run e ops).1 (absS (k.init.run e ops).2.1) := by
   obtain ⟨hi, ha⟩ := init_inv k
   have hwf : AbsWF (absS k.init) (fun _ => false) := by rw [ha]; exact absWF_empty
   have hl : LedgerOK (absS k.init) Ledger.empty := by rw [ha]; exact ledgerOK_empty
@@ -108,8 +108,8 @@ theorem holds_rr_p9218_rand (k : Kind) (e : Env) (ops : List Op) (hc : Contract 
 /-! ### Readable consequences of `PopSpec` (the clauses of the property, one by one) -/
 
 /-- Control frames come out before stream frames, in the order pushed. -/
-theorem pop_control_first {e e' : Env} {a a' : Abs} {r : Res} {f : Frame} {rest : List Frame}
-    (h : PopSpec e a r e' a') (hc : a.ctl = f :: rest) : r = .frame f ∧ a'.ctl = rest ∧ a'.q = a.q ∧ e' = e := by
+theorem pop_control_first {strict : Prop} {e e' : Env} {a a' : Abs} {r : Res} {f : Frame} {rest : List Frame}
+    (h : PopSpec strict e a r e' a') (hc : a.ctl = f :: rest) : r = .frame f ∧ a'.ctl = rest ∧ a'.q = a.q ∧ e' = e := by
   cases h with
   | ctl h1 => rw [hc] at h1; cases h1; exact ⟨rfl, rfl, rfl, rfl⟩
   | whole h1 => rw [hc] at h1; cases h1
@@ -118,7 +118,7 @@ theorem pop_control_first {e e' : Env} {a a' : Abs} {r : Res} {f : Frame} {rest 
 
 /-- A popped stream frame is the head of its stream's FIFO or a `Consume` prefix of it; all other FIFOs
 are untouched. -/
-theorem pop_stream_head {e e' : Env} {a a' : Abs} {g : Frame} (h : PopSpec e a (.frame g) e' a') (hc : a.ctl = []) :
+theorem pop_stream_head {strict : Prop} {e e' : Env} {a a' : Abs} {g : Frame} (h : PopSpec strict e a (.frame g) e' a') (hc : a.ctl = []) :
     ∃ id f rest, a.q id = f :: rest ∧ (∀ x, x ≠ id → a'.q x = a.q x) ∧
       ((g = f ∧ a'.q id = rest) ∨ (∃ r, a'.q id = r :: rest ∧ toks g ++ toks r = toks f)) := by
   cases h with
@@ -132,14 +132,14 @@ theorem pop_stream_head {e e' : Env} {a a' : Abs} {g : Frame} (h : PopSpec e a (
 
 /-- `Pop` reports a frame whenever some queued frame is sendable: "nothing" implies that the control
 queue is empty and the head of every stream FIFO is a non-empty DATA frame with no allowance. -/
-theorem pop_none_nothing_sendable {e e' : Env} {a a' : Abs} (h : PopSpec e a .none e' a') :
+theorem pop_none_nothing_sendable {e e' : Env} {a a' : Abs} (h : PopSpec True e a .none e' a') :
     a.ctl = [] ∧ a' = a ∧ e' = e ∧ ∀ id f rest, a.q id = f :: rest →
       ∃ sid tag off len fin last, f = .data sid tag off len fin last ∧ 0 < len ∧ e.allowed sid maxInt32 ≤ 0 := by
   cases h with
   | none hc hall =>
     refine ⟨hc, rfl, rfl, ?_⟩
     intro id f rest hq
-    obtain ⟨e1, h1⟩ := hall id f rest hq
+    obtain ⟨e1, h1⟩ := hall trivial id f rest hq
     exact (consume_none h1).2
 
 /-- A DATA piece respects the stream window, the connection window and the maximum frame size, and the
